@@ -77,6 +77,20 @@ pub struct RandCfg {
     /// hash whose environment is frozen from a random point on (C14)
     #[serde(default)]
     pub freeze: String,
+    /// lifecycle whose datastore writes the node serves very late (its bookkeeping then
+    /// overlaps with the next lifecycle of the same hash); 0 = none
+    #[serde(default)]
+    pub slow_lc: u32,
+    /// HTLCs with an id >= late_from are delivered only after some HTLC has been answered
+    /// (a second set arriving after the first one was decided); 0 = no such restriction
+    #[serde(default)]
+    pub late_from: u64,
+    /// the wall clock may be stepped back at a crash
+    #[serde(default)]
+    pub clockback: bool,
+    /// HTLC k+1 is delivered only after HTLC k has been answered (successive sets)
+    #[serde(default)]
+    pub staged: bool,
     /// number of direct calls of wait_payment / pay (Engine A-prov; C15, C16)
     #[serde(default)]
     pub direct: u32,
@@ -105,6 +119,10 @@ pub struct Job {
     pub probes: u32,
     #[serde(default)]
     pub tag: String,
+    /// steps appended after the schedule and before the drain: "crash_replay" (crash, then every
+    /// replayable HTLC is delivered again), "probe" (the scenario's probe set arrives now)
+    #[serde(default)]
+    pub epilogue: Vec<String>,
     /// record the onion payload bytes of every HTLC in the trace (C13 payload clause)
     #[serde(default)]
     pub payload: bool,
@@ -161,6 +179,9 @@ pub struct Driver {
     steps_done: usize,
     finished: bool,
     probe_settled: bool,
+    epi: usize,
+    replay_pending: bool,
+    wall_back: u64,
 }
 
 pub fn answer_json(i: u64, resp: &HtlcAcceptedResponse) -> Value {
@@ -292,6 +313,9 @@ impl Driver {
             steps_done: 0,
             finished: false,
             probe_settled: false,
+            epi: 0,
+            replay_pending: false,
+            wall_back: 0,
             job,
         };
         for (k, h) in d.job.scen.htlcs.clone().into_iter().enumerate() {
@@ -532,7 +556,7 @@ impl Driver {
             },
             "tick" => {
                 sim::with(|s| s.now += 1);
-                crate::clock::set_secs(crate::clock::EPOCH_SECS + sim::with(|s| s.now));
+                crate::clock::set_secs((crate::clock::EPOCH_SECS + sim::with(|s| s.now)).saturating_sub(self.wall_back));
                 tokio::time::advance(Duration::from_secs(1)).await;
                 settle().await;
                 let now = sim::with(|s| s.now);
@@ -605,7 +629,14 @@ impl Driver {
                 }
                 sim::with(|s| s.crash());
                 self.pays_reset();
-                self.line(json!({"ev":"crash","lost":lost}));
+                // the wall clock may be stepped back while the node is down (NTP, VM restore): the monotonic
+                // clock is unaffected, stored attempt times can then lie in the future
+                let back = step["back"].as_u64().unwrap_or(0);
+                if back > 0 {
+                    self.wall_back += back;
+                    crate::clock::set_secs((crate::clock::EPOCH_SECS + sim::with(|s| s.now)).saturating_sub(self.wall_back));
+                }
+                self.line(json!({"ev":"crash","lost":lost,"back":back}));
                 return true;
             }
             _ => self.diverged += 1,
@@ -621,18 +652,42 @@ impl Driver {
         let frozen_hash = if self.frozen { r.freeze.clone() } else { String::new() };
         let mut v: Vec<(u32, Value)> = Vec::new();
         if !drain {
+            let answered_any = self.hst.values().any(|s| *s == HSt::Answered);
             for (i, st) in &self.hst {
+                if r.late_from != 0 && *i >= r.late_from && !answered_any {
+                    continue;
+                }
+                if r.staged && *i > 1 && self.hst.get(&(*i - 1)) != Some(&HSt::Answered) {
+                    continue;
+                }
                 if *st == HSt::Unsent && (frozen_hash.is_empty() || self.specs[i].hash != frozen_hash) {
-                    v.push((6, json!({"a":"htlc","i":i})));
+                    // after a crash the replay of the later HTLCs may be slow (peers reconnect one by one)
+                    let w = if r.clockback && self.wall_back > 0 && *i > 1 { 1 } else { 6 };
+                    v.push((w, json!({"a":"htlc","i":i})));
                 }
             }
         }
-        let snapshot: Vec<(u64, CallSt, Value, String)> = sim::with(|s| {
-            s.calls.values().map(|c| (c.id, c.st, c.abs.clone(), c.method.clone())).collect()
+        let snapshot: Vec<(u64, CallSt, Value, String, u32)> = sim::with(|s| {
+            s.calls.values().map(|c| (c.id, c.st, c.abs.clone(), c.method.clone(), c.lc)).collect()
         });
         let nparts = sim::with(|s| s.parts.len());
-        for (id, st, abs, method) in snapshot {
+        for (id, st, abs, method, lc) in snapshot {
             let hash = abs["hash"].as_str().unwrap_or("").to_string();
+            // a slow lifecycle: its datastore writes are served about 40 times less often
+            let slow = !drain && r.slow_lc != 0 && lc == r.slow_lc && method == "datastore";
+            let w10 = if slow { 0 } else { 10 };
+            if slow && self.rng.below(40) == 0 {
+                match st {
+                    CallSt::Issued => v.push((10, json!({"a":"exec","sel":{"call":id},"fault":"none"}))),
+                    CallSt::Executed => v.push((10, json!({"a":"deliver","sel":{"call":id}}))),
+                    _ => {}
+                }
+                continue;
+            }
+            if slow {
+                continue;
+            }
+            let _ = w10;
             if !frozen_hash.is_empty() && hash == frozen_hash {
                 continue;
             }
@@ -707,7 +762,8 @@ impl Driver {
                 v.push((2, json!({"a":"height","h":h + 1 + self.rng.below(3) as u32})));
             }
             if self.crashes_left > 0 {
-                v.push((2, json!({"a":"crash","lose": self.rng.below(2) == 0})));
+                let back = if r.clockback && self.rng.below(2) == 0 { 1 + self.rng.below(3) } else { 0 };
+                v.push((2, json!({"a":"crash","lose": self.rng.below(2) == 0, "back": back})));
             }
         }
         v
@@ -831,6 +887,49 @@ impl Driver {
                 if self.apply(&mgr, &step).await {
                     return true;
                 }
+            }
+        }
+        while self.epi < self.job.epilogue.len() {
+            let e = self.job.epilogue[self.epi].clone();
+            self.epi += 1;
+            match e.as_str() {
+                "crash_replay" => {
+                    self.replay_pending = true;
+                    if self.apply(&mgr, &json!({"a":"crash","lose":false})).await {
+                        return true;
+                    }
+                }
+                "probe" => {
+                    let base = 900u64;
+                    let mut ids = Vec::new();
+                    for (k, h) in self.job.scen.probe.clone().into_iter().enumerate() {
+                        let i = base + k as u64 + 1;
+                        self.hst.insert(i, HSt::Unsent);
+                        self.specs.insert(i, h);
+                        ids.push(i);
+                    }
+                    for i in ids {
+                        self.apply(&mgr, &json!({"a":"htlc","i":i})).await;
+                    }
+                }
+                _ => {}
+            }
+        }
+        if self.replay_pending {
+            self.replay_pending = false;
+            let ids: Vec<u64> = self.hst.iter().filter(|(_, s)| **s == HSt::Unsent).map(|(i, _)| *i).collect();
+            for i in ids {
+                self.apply(&mgr, &json!({"a":"htlc","i":i})).await;
+            }
+            // let the replayed lifecycles run a little before everything is resolved
+            for _ in 0..12 {
+                let en: Vec<(u32, Value)> = self.enabled(true).into_iter()
+                    .filter(|(_, s)| s["a"] == "exec" || s["a"] == "deliver").collect();
+                if en.is_empty() {
+                    break;
+                }
+                let step = self.pick(&en);
+                self.apply(&mgr, &step).await;
             }
         }
         if self.job.drain && !self.finished {
